@@ -249,7 +249,12 @@ fn expand_abandon(s: &Scenario, _out: &RunOutput, _rng: &mut Rng, thorough: bool
             points.push(Ab::AtMs(0));
             points.push(Ab::AtMs(1));
         }
-        for (i, call) in c.calls.iter().enumerate() {
+        // every call of an ordinary scenario; of a burst (dozens to hundreds of calls) sixteen,
+        // evenly spread: the first, the last and what lies between
+        let n = c.calls.len();
+        let picked: Vec<usize> = if n <= 16 { (0..n).collect() } else { (0..16).map(|k| k * (n - 1) / 15).collect() };
+        for i in picked {
+            let call = &c.calls[i];
             if call.abandon.is_some() {
                 continue;
             }
